@@ -70,6 +70,14 @@ def configs(tier):
             if opt == "cooling" and v:
                 cfg["extra-species"] = "H, e-, H+"
             add(cfg, f"single:{opt}")
+    # a family in which the replacement table actually changes species (upper-case UCLCHEM spelling)
+    for rep in ("HE:He,E:e", "HE: He, E: e", "HE:He"):
+        for allowed in ("", "HE,HE+,E-,H,H2", "He,He+,e-,H,H2"):
+            for extra in ("", "HE++"):
+                cfg = dict(BASE)
+                cfg.update({"elements": "E,H,HE,C,O", "pseudo-elements": "CRP,PHOTON", "element-replacement": rep, "network-files": "he.ucl",
+                            "file-formats": "uclchem", "allowed-species": allowed, "extra-species": extra})
+                add(cfg, "family:replacement-effective")
     pool = INTERACTING if tier == "quick" else [o for o in ALPHABET if o not in ("heating",)]
     pairs = list(itertools.combinations(pool, 2))
     for a, b in pairs:
@@ -193,6 +201,7 @@ def write_inputs(proj: Path):
         )
         + "\n"
     )
+    (proj / "he.ucl").write_text("HE,CRP,NAN,HE+,E-,NAN,NAN,0.5,0.0,0.0,10,41000\nHE+,E-,NAN,HE,NAN,NAN,NAN,1e-11,-0.5,0.0,10,41000\nH2,PHOTON,NAN,H,H,NAN,NAN,1e-10,0.0,2.5,10,41000\n")
     (proj / "net2.umist").write_text(F.enc_umist(F.AReaction(["C", "CH"], ["C2", "H"], 6.59e-11, 0.0, 0.0, 10.0, 300.0, 5173, "NN")) + "\n")
 
 
